@@ -347,6 +347,69 @@ func runDriveGW(args []string) int {
 		}
 		w2.Close()
 		os.Remove(path2)
+
+		// ---- phase 3: files made by the commands (copy / sum-copy creating their destination, generate): every file whispertool
+		// writes is a classic file, also when there was nothing to copy or nothing to fill
+		if id%2 == 0 {
+			cdir := filepath.Join(dir, fmt.Sprintf("cli%d", id))
+			createFile(filepath.Join(cdir, "src", "item1", "s1.wsp"), cfg)
+			cmd.VerifNow = func() wt.Timestamp { return wt.Timestamp(mp.B + now2) }
+			type made struct {
+				what string
+				path string
+				c    cmd.Command
+			}
+			ail := func() []wt.ArchiveInfo { return archiveInfoList(cfg) }
+			list := []made{
+				{"copy of an empty source into a new file", filepath.Join(cdir, "dst", "item1", "d1.wsp"),
+					&cmd.CopyCommand{SrcBase: filepath.Join(cdir, "src"), SrcRelPath: "item1/s1.wsp", DestBase: filepath.Join(cdir, "dst"), DestRelPath: "item1/d1.wsp",
+						AggregationMethod: methodOf(method), XFilesFactor: xffFloat(cfg.Xff), ArchiveInfoList: ail(), ArchiveID: cmd.ArchiveIDAll}},
+				{"sum-copy of an empty source into a new file", filepath.Join(cdir, "dst", "item1", "d2.wsp"),
+					&cmd.SumCopyCommand{SrcBase: filepath.Join(cdir, "src"), DestBase: filepath.Join(cdir, "dst"), ItemPattern: "item1", SrcPattern: "s*.wsp", DestRelPath: "d2.wsp",
+						AggregationMethod: methodOf(method), XFilesFactor: xffFloat(cfg.Xff), ArchiveInfoList: ail(), ArchiveID: cmd.ArchiveIDAll}},
+				{"generate without fill", filepath.Join(cdir, "g1.wsp"),
+					&cmd.GenerateCommand{Dest: filepath.Join(cdir, "g1.wsp"), Perm: 0644, AggregationMethod: methodOf(method), XFilesFactor: xffFloat(cfg.Xff), ArchiveInfoList: ail(), Fill: false}},
+				{"generate with fill", filepath.Join(cdir, "g2.wsp"),
+					&cmd.GenerateCommand{Dest: filepath.Join(cdir, "g2.wsp"), Perm: 0644, AggregationMethod: methodOf(method), XFilesFactor: xffFloat(cfg.Xff), ArchiveInfoList: ail(), RandMax: 5, Fill: true}},
+			}
+			for _, m := range list {
+				var cerr error
+				func() {
+					defer func() {
+						if rc := recover(); rc != nil {
+							cerr = fmt.Errorf("panic: %v", rc)
+						}
+					}()
+					cerr = m.c.Execute()
+				}()
+				if cerr != nil {
+					continue // a failing command is C16's matter
+				}
+				buf3, _ := ioutil.ReadFile(m.path)
+				h3, rings3, err3 := decodeFile(buf3)
+				ev3 := map[string]interface{}{"ev": "create", "cfg": cfg, "B": mp.B, "scale": 1, "trace": id, "writer": "whispertool: " + m.what}
+				if err3 != nil {
+					ev3["post"] = [][][]interface{}{}
+					ev3["hdr_ok"] = false
+					ev3["format_error"] = err3.Error()
+					emit(ev3)
+					continue
+				}
+				ev3["post"] = mp.sparseOf(rings3)
+				ev3["hdr_ok"] = headerMatches(h3, cfg) == nil
+				emit(ev3)
+				if g3 := gwOpen(m.path, uint32(mp.B+now2)); g3 == nil {
+					emit(map[string]interface{}{"ev": "fetch", "h": 3, "a": 0, "f": 0, "u": 0, "now": now2, "res": []interface{}{"reference-cannot-open"}, "msg": m.what})
+				} else {
+					if d := g3.metaMismatch(cfg); d != "" {
+						emit(map[string]interface{}{"ev": "fetch", "h": 3, "a": 0, "f": 0, "u": 0, "now": now2, "res": []interface{}{"reference-metadata-differs"}, "msg": d})
+					}
+					g3.Close()
+				}
+			}
+			cmd.VerifNow = nil
+			os.RemoveAll(cdir)
+		}
 	}
 	return 0
 }
@@ -397,6 +460,25 @@ func runC05CLI(args []string) int {
 			db.Sync()
 			db.Close()
 		}
+		// an existing destination the library refuses to open (cut after the header, zero-filled as Create leaves it before
+		// its first Sync, or somebody else's file at that path): the command fails, the file must still be there, untouched
+		textOut := "/dev/full"
+		damaged := ""
+		if id%4 == 1 {
+			full, _ := ioutil.ReadFile(dst)
+			switch rnd.Intn(3) {
+			case 0:
+				damaged = "cut after the header"
+				ioutil.WriteFile(dst, full[:16+12*k], 0644)
+			case 1:
+				damaged = "all zero"
+				ioutil.WriteFile(dst, make([]byte, len(full)), 0644)
+			default:
+				damaged = "a foreign file"
+				ioutil.WriteFile(dst, []byte("this is not a whisper file\n"), 0644)
+			}
+			textOut = ""
+		}
 		before, _ := ioutil.ReadFile(dst)
 		var c cmd.Command
 		name := "copy"
@@ -404,14 +486,14 @@ func runC05CLI(args []string) int {
 			// generate never touches an existing file (different layout, failing text output)
 			name = "generate"
 			glay := []wt.ArchiveInfo{wt.NewArchiveInfo(1, uint32(50+rnd.Intn(900)))}
-			c = &cmd.GenerateCommand{Dest: dst, Perm: 0644, AggregationMethod: wt.Sum, ArchiveInfoList: glay, RandMax: 9, Fill: true, TextOut: "/dev/full"}
+			c = &cmd.GenerateCommand{Dest: dst, Perm: 0644, AggregationMethod: wt.Sum, ArchiveInfoList: glay, RandMax: 9, Fill: true, TextOut: textOut}
 		} else if id%2 == 0 {
 			c = &cmd.CopyCommand{SrcBase: filepath.Join(base, "src"), SrcRelPath: "item1/s1.wsp", DestBase: filepath.Join(base, "dst"), DestRelPath: "item1/d.wsp",
-				AggregationMethod: wt.Sum, ArchiveInfoList: archiveInfoList(cfg), ArchiveID: cmd.ArchiveIDAll, TextOut: "/dev/full"}
+				AggregationMethod: wt.Sum, ArchiveInfoList: archiveInfoList(cfg), ArchiveID: cmd.ArchiveIDAll, TextOut: textOut}
 		} else {
 			name = "sum-copy"
 			c = &cmd.SumCopyCommand{SrcBase: filepath.Join(base, "src"), DestBase: filepath.Join(base, "dst"), ItemPattern: "item1", SrcPattern: "s*.wsp", DestRelPath: "d.wsp",
-				AggregationMethod: wt.Sum, ArchiveInfoList: archiveInfoList(cfg), ArchiveID: cmd.ArchiveIDAll, TextOut: "/dev/full"}
+				AggregationMethod: wt.Sum, ArchiveInfoList: archiveInfoList(cfg), ArchiveID: cmd.ArchiveIDAll, TextOut: textOut}
 		}
 		var class, msg string
 		func() {
@@ -425,6 +507,9 @@ func runC05CLI(args []string) int {
 		execs++
 		after, _ := ioutil.ReadFile(dst)
 		desc := map[string]interface{}{"cmd": name, "layout": lay, "case": id, "outcome": class}
+		if damaged != "" {
+			desc["destination"] = damaged
+		}
 		if len(samples) < 2 {
 			samples = append(samples, desc)
 		}
